@@ -91,14 +91,17 @@ Proof.
     destruct miss as [ma|]; cbn [wf_missing] in Hm.
     + destruct Hm as [Hdt _]. rewrite Hdt. cbn. reflexivity.
     + cbn. reflexivity.
-  - (* variable length *)
-    destruct elems as [|e r]; [discriminate|].
+  - (* variable length: every element is upcast first *)
+    assert (Hwfu : Forall wf_varr (map upcast_varr elems)).
+    { destruct Hv as [_ Hwf]. apply Forall_forall. intros x Hx. apply in_map_iff in Hx. destruct Hx as [y [<- Hy]].
+      rewrite Forall_forall in Hwf. specialize (Hwf y Hy). unfold upcast_varr. destruct (dtype_eqb (v_dt y) DF16); exact Hwf. }
+    destruct (map upcast_varr elems) as [|e r] eqn:Eup; [discriminate|].
     destruct (forallb (fun x => dtype_eqb (v_dt x) (v_dt e)) r) eqn:Hall; [|discriminate].
     destruct (valid_prop_dtype (v_dt e) && negb (String.eqb name "")); [|discriminate].
     inversion Hpm; subst pm; clear Hpm.
     destruct (serialize (e :: r)) as [[rows data]|err] eqn:Hser; [|discriminate].
     inversion Henc; subst v m d; clear Henc.
-    destruct Hv as [_ Hwf].
+    pose proof Hwfu as Hwf.
     unfold load_prop. cbn [pm_varlength pm_dtype new_pm zp_values zp_missing zp_data mask_rows].
     assert (Hrd : a_dt (rows_arr rows) = DU64) by (unfold rows_arr; destruct rows; reflexivity).
     rewrite Hrd. cbn [dtype_eqb negb].
